@@ -85,6 +85,13 @@ def continuous_cases(ctx: Ctx, bisect) -> None:
         "cubic": (lambda x: x ** 3 + x, None),
         "cubic-": (lambda x: -(x ** 3) - 2 * x, None),
     }
+    # a function that obtains its values by differentiating (the slope of softplus(4x)/4 is the logistic function): nothing in
+    # the property restricts HOW a continuous monotone function computes its values
+    def slope(x: torch.Tensor) -> torch.Tensor:
+        z = x.detach().clone().requires_grad_(True)
+        (g,) = torch.autograd.grad(torch.nn.functional.softplus(4 * z).sum(), z)
+        return g / 4
+    fams["autograd-slope"] = (slope, lambda y: torch.logit(y) / 4)
     for name, (f, inv) in fams.items():
         for lo, hi in ((-1.0, 2.0), (0.125, 0.75), (-3.0, -0.5)):
             for precision in (1e-2, 1e-4, 1e-6, 1e-9):
